@@ -1,4 +1,6 @@
-"""Replay: CFGNormalization splits the edge of a `djmp` whose target has several predecessors but leaves the jump table
+"""(Repaired in /repo: CFGNormalization now refuses — CompilerPanic "cannot normalize: target ... of a djmp has another
+predecessor"; this replay exits 0 when every level ends in that refusal, 1 when the program compiles again.)
+Replay: CFGNormalization splits the edge of a `djmp` whose target has several predecessors but leaves the jump table
 (data segment) pointing at the old label: the dynamic jump skips the forwarding block, the phi of the target reads the
 wrong value.  Expected (IR semantics): calldata (x=0, a=1, b=9) -> returns (9, 0); observed at every level: (10, 0).
 Run: PYTHONPATH=/repo:/verif/tools /venv/bin/python corpus/C14/normalization_djmp_table.py"""
@@ -15,7 +17,13 @@ text = open(os.path.join(os.path.dirname(os.path.abspath(__file__)), "normalizat
 bad = 0
 for lvl in (OptimizationLevel.NONE, OptimizationLevel.GAS, OptimizationLevel.CODESIZE, OptimizationLevel.O3):
     ctx = parse_venom(text)
-    run_passes_on(ctx, VenomOptimizationFlags(level=lvl))
+    try:
+        run_passes_on(ctx, VenomOptimizationFlags(level=lvl))
+    except Exception as e:
+        ok = "of a djmp has another predecessor" in str(e)
+        print(lvl.name, "refused:" if ok else "UNEXPECTED:", type(e).__name__, str(e).strip().splitlines()[0][:120])
+        bad += not ok
+        continue
     code, _ = generate_bytecode(generate_assembly_experimental(ctx, OptimizationLevel.O2))
     ch = Chain("cancun")
     addr = ch.set_code(None, code)
